@@ -390,6 +390,13 @@ def evaluate(case):
                 return core.R(False, 'float-symbol', 'symbols/float-digits', 'symbol %s = %s is listed as %s: wrong in the digits shown, on %s' % (m.group(1), FLOATS[int(m.group(1)[1:])], m.group(2), desc))
         if seen != len(FLOATS):
             return core.R(False, 'float-symbol', 'symbols/float-missing', '%d of %d float symbols found in the symbol table on %s' % (seen, len(FLOATS), desc))
+    # the MAP symbol section has a part for every segment and one (NOTHING) for the symbols that belong to none: a symbol the
+    # listing's table shows with an integer value is in the MAP as well
+    if symmap or symlst:
+        anytype = set(m.group(1).upper() for m in re.finditer(r'^(\S+)\s+(?:Int|Float|String)\s', mp, re.M))
+        gone = sorted(x for x in symlst if x not in anytype and not re.search(r'\[', x))
+        if mp and gone and not retract:
+            return core.R(False, 'symbol-missing', 'symbols/listed-but-not-in-map', 'symbols %s are in the listing\'s symbol table but not in the MAP file on %s' % (gone[:5], desc))
     both = set(symmap) & set(symlst)
     for s in sorted(both):
         if symmap[s] != symlst[s] and (symmap[s] - symlst[s]) % (1 << 64) != 0 and (symmap[s] & 0xffffffff) != (symlst[s] & 0xffffffff):
